@@ -306,24 +306,64 @@ pub struct C14 {
     expiry: u64,
     may_be_gone: BTreeSet<u64>,
     prev: Option<PartFacts>,
+    /// the second partition: filled once at the start (a closed segment of five messages and two messages
+    /// in the open one) and never written again; every pass and restart of the history acts on it too
+    by: LogModel,
+    by_may_be_gone: BTreeSet<u64>,
+    by_prev: Option<PartFacts>,
 }
 
 impl C14 {
     fn new(cfg: &NodeCfg) -> Self {
         let mut m = LogModel::new(false);
         m.retention_seen = true;
-        C14 { m, expiry: cfg.expiry_us, may_be_gone: BTreeSet::new(), prev: None }
+        let by = m.clone();
+        C14 { m, expiry: cfg.expiry_us, may_be_gone: BTreeSet::new(), prev: None, by, by_may_be_gone: BTreeSet::new(), by_prev: None }
     }
+}
+
+/// What a pass that ends at `now` was allowed to delete of a partition whose segments were `prev` before it.
+fn eligible_for_expiry(prev: &PartFacts, m: &LogModel, expiry: u64, now: u64, out: &mut BTreeSet<u64>) -> u64 {
+    let mut n = 0;
+    if expiry > 0 {
+        for s in prev.segs.iter().filter(|s| s.closed && s.size > 0) {
+            let newest = s.end.max(s.current);
+            let Some(ts) = m.msgs.get(newest as usize).and_then(|m| m.ts) else { continue };
+            if ts + expiry <= now {
+                for o in s.start..=newest {
+                    out.insert(o);
+                }
+                n += 1;
+            }
+        }
+    }
+    n
 }
 
 impl Oracle for C14 {
     fn start(&mut self, w: &mut World) -> Result<(), String> {
+        for n in [5usize, 2] {
+            let (sent, r) = w.send_to(2, None, n);
+            r.map_err(|e| format!("filling partition 2 at the start failed: {e}"))?;
+            self.by.accept(&sent);
+        }
+        w.node.quiesce(4);
+        let full2 = poll_part(w, 2)?;
+        self.by.check_full(&full2, true).map_err(|e| format!("partition 2 at the start: {e}"))?;
+        self.by_prev = Some(w.partition_facts(2));
         self.prev = Some(w.partition_facts(1));
         Ok(())
     }
     fn step(&mut self, w: &mut World, op: &Op, out: &StepOut, ctx: &mut StepCtx) -> Result<(), String> {
         model_step(w, &mut self.m, op, out, ctx)?;
         self.m.retention_seen = true;
+        if matches!(op, Op::Maintain) {
+            let now = iggy::verif::clock_peek();
+            let n = eligible_for_expiry(self.by_prev.as_ref().unwrap(), &self.by, self.expiry, now, &mut self.by_may_be_gone);
+            if n > 0 {
+                ctx.res.bump("segments_eligible_for_expiry_in_the_second_partition");
+            }
+        }
         match (op, out) {
             (Op::SetExpiry(u), StepOut::Done(Ok(()))) => self.expiry = *u,
             (Op::SetExpiry(_), StepOut::Done(Err(e))) => return Err(format!("valid update_topic refused: {e}")),
@@ -391,6 +431,19 @@ impl Oracle for C14 {
             }
         }
         self.prev = Some(w.partition_facts(1));
+        // the second partition: nothing was sent to it since the start
+        let full2 = poll_part(w, 2)?;
+        self.by.check_full(&full2, true).map_err(|e| format!("partition 2 (not written since the start): {e}"))?;
+        let served2: BTreeSet<u64> = full2.msgs.iter().map(|g| g.offset).collect();
+        for o in 0..self.by.len() {
+            if !served2.contains(&o) && !self.by_may_be_gone.contains(&o) {
+                return Err(format!(
+                    "partition 2 (not written since the start): message at offset {o} is no longer served although {}",
+                    if self.expiry == 0 { "the topic never expires" } else { "no maintenance pass has seen it in a closed segment older than the expiry" }
+                ));
+            }
+        }
+        self.by_prev = Some(w.partition_facts(2));
         vacuity(w, ctx);
         Ok(())
     }
